@@ -109,7 +109,7 @@ TInit ==
     /\ data = <<>> /\ hint = <<>> /\ dsync = <<>> /\ hsync = <<>>
     /\ keydir = EmptyKeydir /\ stats = <<>> /\ active = 0 /\ written = 0
     /\ wr = Idle /\ model = [k \in Keys |-> None]
-    /\ everIds = {} /\ nops = 0 /\ ncrash = 0 /\ mghost = [lastFull |-> -1]
+    /\ everIds = {} /\ nops = 0 /\ ncrash = 0 /\ mghost = [lastFull |-> -1, leftover |-> -1]
 
 \* load the `st` object of event r into the Bitcask variables
 LoadState(r) ==
